@@ -12,9 +12,8 @@ Proof:  lean/ScenicModel/Props/C14*.lean (root module Props/C14.lean)
         data regenerated from /repo on every run by
           translate/simcleanup.py    -> Gen/SimCleanup.lean     (finally order, agents init, destroy guarded, override merge, stop clears)
           translate/veneerglobals.py -> Gen/VeneerGlobals.lean  (who assigns / restores / resets which veneer global)
-        `Props/C14SideDestroy.lean` (the rest of the finally block is protected against a destroy() that raises) is false
-        of the source as found: it is built only when the driver says its condition holds; while it does not, the known
-        finding it corresponds to must be reproduced by the direct oracle in the same run (else: broken obligation).
+        (all side conditions, including `Props/C14SideDestroy.lean` – the rest of the finally block is protected against
+        a destroy() that raises, repaired by fc314756 – hold of the source and are imported by the root module)
 Tie:    (T) the two translators; (C) the Lean driver is run on the event traces of instrumented real simulations
         (overrides / proxies / clean-up model) and on operation sequences executed on the real veneer functions
         (globals model) and must predict every observation;
@@ -44,7 +43,7 @@ THEOREMS = [_T + n for n in (
     "sim_restores_globals_current", "compile_restores_globals_current", "sim_and_compile_restore_globals_current",
     # destroy() raising inside the finally block
     "runSimD_eq_runSim", "sim_scene_untouched_destroy", "sim_scene_untouched_destroy_current",
-    "destroy_failure_skips_cleanup", "guarded_destroy_failure_harmless",
+    "sim_destroy_failure_harmless_current", "destroy_failure_skips_cleanup", "guarded_destroy_failure_harmless",
     # negation witnesses of the hypotheses
     "revert_after_disable_changes_scene", "repaired_order_keeps_scene", "stale_overrides_change_other_scene",
     "forgetting_overrides_keeps_other_scene", "setup_failure_skips_endSimulation", "first_dict_only_loses_second_override",
@@ -54,18 +53,10 @@ SIDE = [_T + n for n in (
     "gen_merge_keeps_oldest", "gen_cleanup_steps_present", "gen_model_assumptions", "gen_closers_and_cms_wf",
     "gen_reverts_before_disable", "gen_agents_initialised", "gen_stop_clears_overrides",
     "gen_sim_writes_reset", "gen_compile_writes_reset", "gen_sim_tables_wf", "gen_compile_tables_wf",
-    "gen_no_suspended_blocks",
+    "gen_no_suspended_blocks", "gen_destroy_guarded",
 )]
-# side conditions that are false of the source as found: (module, theorems, driver flags that must all be 1 for it to build)
-SIDE_MODULES = [
-    ("ScenicModel.Props.C14SideDestroy", [_T + "gen_destroy_guarded", _T + "sim_destroy_failure_harmless_current"], ["destroy"]),
-]
-# such a flag may be false only while this known finding is reproduced by the direct oracle in the same run
-FLAG_FINDING = {
-    "destroy": "cleanup-aborted:sim_destroy",
-}
 # the flags of the side conditions proved in Props/C14.lean (diagnostics when that module no longer builds)
-MAIN_FLAGS = ["order", "clears", "agents", "steps", "simclose", "compclose", "simwrites", "compwrites", "susp"]
+MAIN_FLAGS = ["order", "clears", "agents", "steps", "simclose", "compclose", "simwrites", "compwrites", "susp", "destroy"]
 
 FINGERPRINTS = {
     "Simulation.__init__": ("src/scenic/core/simulators.py", "Simulation.__init__"),
@@ -1185,7 +1176,7 @@ behavior B():
         wait
 ego = new Foo with behavior B()
 """, "scenario": None, "key": "regression:abandoned-try-block"},
-    # the shared top-level scenario keeps the sub-scenarios of the previous simulation in _subScenarios
+    # repaired by df9891ff: the shared top-level scenario kept the sub-scenarios of the previous simulation in _subScenarios
     "stale-subscenarios": {
         "code": REG_CLASS + """
 scenario Sub():
@@ -1201,7 +1192,7 @@ scenario Main():
         wait
         wait
         do Sub()
-""", "scenario": "Main", "key": "followup-differs:result:records.sfoo"},
+""", "scenario": "Main", "key": "regression:stale-subscenarios"},
     # a sub-scenario whose setup block fails after `override ego with behavior …`: the override is never reverted (the
     # scenario was prepared, never started, so nobody stops it) and the finally block only stops the agents' *current*
     # behaviors: the scene's own behavior object stays running and the scene cannot be simulated again
@@ -1225,8 +1216,8 @@ scenario Main():
     compose:
         do Sub()
 """, "scenario": "Main", "key": "followup-differs:result:outcome.InvalidScenarioError"},
-    # the simulator interface's destroy() raises inside the finally block of Simulation.__init__
-    "destroy-failure": {"code": "ego = new Object\n", "scenario": None, "key": "cleanup-aborted:sim_destroy"},
+    # repaired by fc314756: the simulator interface's destroy() raises inside the finally block of Simulation.__init__
+    "destroy-failure": {"code": "ego = new Object\n", "scenario": None, "key": "regression:destroy-failure"},
 }
 
 
@@ -1633,7 +1624,6 @@ def run(ctx):
         ctx.escalated.append(f"translator tie lost (veneerglobals): {e}")
         ctx.notes.append(f"translator tie lost for the veneer globals: {e}; relying on correspondence at thorough budget")
     pr = ctx.prove(THEOREMS, side_conditions=SIDE)
-    total_obl, total_dis, axioms = pr.obligations, pr.discharged, dict(pr.axioms)
     driver_ok = pr.build_ok
     if not pr.build_ok:
         # a side condition (or a proof) no longer checks; the model itself still runs: build the driver alone, so that the
@@ -1641,7 +1631,6 @@ def run(ctx):
         rc, _log = ctx.lake(["build", "drv_c14"])
         driver_ok = rc == 0
     flags = {}
-    pending = {}   # finding key -> description of the side condition that is false
     if driver_ok:
         flags = parse_side(ctx.driver(["C14 side"])[0])
         ctx.extra["side_conditions"] = flags
@@ -1650,35 +1639,29 @@ def run(ctx):
             ctx.notes.append(f"Props/C14.lean no longer builds; side conditions that are false on the regenerated data: {false_main or 'none'}"
                              f" (leaking globals: {flags.get('simleaks')},{flags.get('compleaks')}; suspended blocks: {flags.get('suspended')};"
                              f" merge: {flags.get('merge')})")
-        for mod, thms, need in SIDE_MODULES:
-            false = [f for f in need if flags.get(f) != "1"]
-            total_obl += len(thms)
-            if not false:
-                if pr.build_ok:
-                    r = ctx.prove(thms, module=mod, extra_targets=())
-                    total_dis += r.discharged
-                    axioms.update(r.axioms)
-            else:
-                for f in false:
-                    pending.setdefault(FLAG_FINDING[f], f"side condition `{f}` is false on the data generated from the source ({mod})")
         if ctx.tier == "thorough" and pr.build_ok:
             mods = ["ScenicModel.Props.C14", "ScenicModel.Props.C14Base", "ScenicModel.Props.C14Overrides", "ScenicModel.Props.C14Stale",
                     "ScenicModel.Props.C14Revert", "ScenicModel.Props.C14Nested", "ScenicModel.Props.C14Witness",
                     "ScenicModel.Props.C14Globals", "ScenicModel.Props.C14Destroy", "ScenicModel.Props.C14SideOrder",
                     "ScenicModel.Props.C14SideAgents", "ScenicModel.Props.C14SideStale", "ScenicModel.Props.C14SideGlobals",
-                    "ScenicModel.Props.C14SideSuspended"]
+                    "ScenicModel.Props.C14SideSuspended", "ScenicModel.Props.C14SideDestroy"]
             ctx.leanchecker(mods)
-    pr.obligations, pr.discharged, pr.axioms = total_obl, total_dis, axioms
     ctx.proof = pr
 
     found = False
     moddir = os.path.join(ctx.tmp, "models")
     # ------------------------------------------------------------------ build the cases
     rng = ctx.rng
-    ncases = ctx.budget(100, 3000)
+    # budgets (round 3): the quick tier must finish in <~ 4 min of wall time on a quiet machine with <= 8 workers; a case
+    # costs 4-10 CPU-s (compile + generate + 2-4 simulations + follow-ups + up to two fresh-process references)
+    ncases = ctx.budget(40, 1000)
     if os.environ.get("VERIF_C14_CASES"):   # debugging knob; not used by ./check
         ncases = int(os.environ["VERIF_C14_CASES"])
-    per_hist = 10
+    quick = ncases <= 100
+    per_hist = 5 if quick else 10
+    # the expensive fresh-process comparisons are sampled in the quick tier (every case still has the scene snapshots,
+    # the veneer globals, the proxies, the override-undone oracle and the Lean trace)
+    p_ref, p_late, p_scratch = (0.6, 0.3, 0.3) if quick else (1.0, 0.4, 0.4)
     cases, hists = [], []
     for i in range(ncases):
         force = None
@@ -1690,12 +1673,14 @@ def run(ctx):
         phase, plan = gen_plan(rng, meta)
         case = {"id": i, "code": code, "meta": meta, "phase": phase, "plan": plan, "s1": rng.getrandbits(30),
                 "s2": rng.getrandbits(30), "moddir": moddir, "two_scenes": rng.random() < 0.4,
-                "warmup": rng.random() < 0.3, "scratch": rng.random() < 0.4, "late": rng.random() < 0.4,
-                "params": ({"p": 0.25} if rng.random() < 0.25 else None)}
+                "warmup": rng.random() < 0.3, "scratch": rng.random() < p_scratch, "late": rng.random() < p_late,
+                "params": ({"p": 0.25} if rng.random() < 0.25 else None), "want_ref": force is not None or rng.random() < p_ref}
+        if not case["want_ref"]:
+            case["scratch"] = case["late"] = False
         cases.append(case)
     for i in range(0, ncases, per_hist):
         hists.append({"cases": cases[i:i + per_hist]})
-    nproc = min(16, max(2, os.cpu_count() or 2))
+    nproc = min(8, max(2, os.cpu_count() or 2))
     if os.environ.get("VERIF_C14_PROCS"):   # development knob (shared machine)
         nproc = max(1, int(os.environ["VERIF_C14_PROCS"]))
     t0 = time.time()
@@ -1710,8 +1695,9 @@ def run(ctx):
                               for _ in range(max(1, nseq // chunk))]
             late_cases = [c for c in cases if c["late"]]
             late_async = pool.map_async(reference, [dict(c, _late=True) for c in late_cases], chunksize=1)
-            refs = pool.map(reference, cases, chunksize=1)
-            for c, r in zip(cases, refs):
+            ref_cases = [c for c in cases if c["want_ref"]]
+            refs = pool.map(reference, ref_cases, chunksize=1)
+            for c, r in zip(ref_cases, refs):
                 c["ref"] = r
             late_refs = late_async.get(timeout=6000)
             for c, r in zip(late_cases, late_refs):
@@ -1756,7 +1742,7 @@ def run(ctx):
                 continue
             plan = case["plan"] or {}
             ctx.case((case["code"], case["phase"], json.dumps(plan, sort_keys=True), case["two_scenes"], case["warmup"],
-                      case["late"], bool(case["params"])),
+                      case["late"], bool(case["params"]), case["want_ref"]),
                      nontrivial=bool(plan) or "override" in case["code"])
             ctx.hist("phase", case["phase"])
             ctx.hist("failure_tag", plan.get("tag", "-"))
@@ -1764,6 +1750,7 @@ def run(ctx):
             ctx.hist("main_outcome", str(res["info"].get("main", res["info"].get("compile"))))
             ctx.hist("depth", case["meta"]["depth"])
             ctx.hist("followups", "+".join(k for k in ("two_scenes", "warmup", "late", "scratch", "params") if case.get(k)) or "rerun-only")
+            ctx.hist("fresh_process_reference", "yes" if case["want_ref"] else "sampled-out")
             for p in res["problems"]:
                 rep = {"kind": "history", "cases": [c for c in h["cases"] if c["id"] <= case["id"]], "at": case["id"], "key": p["key"]}
                 if ctx.violation(p["key"], p["what"], _slim(rep)):
@@ -1814,13 +1801,6 @@ def run(ctx):
                     diff = {n: (da.get(n), db.get(n)) for n in set(da) | set(db) if da.get(n) != db.get(n)}
                     ctx.broken("correspondence", "veneer-globals model vs the real veneer functions",
                                f"state #{k} differs (real, lean): {diff}; line={ln[:500]}")
-    # ------------------------------------------------------------------ false side conditions must be explained by reproduced findings
-    hit_keys = {k for k, _ in ctx.known_hits}
-    for key, detail in pending.items():
-        if key in hit_keys:
-            ctx.notes.append(f"{detail}: explained by known finding [{key}] reproduced in this run")
-        else:
-            ctx.broken("proof", "side condition on generated data", detail + f" and the finding [{key}] was not reproduced")
     ctx.resolve_brokens(found)
 
 
